@@ -31,10 +31,43 @@ RULE = ("fixed grammars; every byte 0..255 as \\xHH, \\OOO, raw byte and \\u00HH
         "non-trivial = the compiler was reached (no parse error)")
 
 
+def _post(ctx, outdir, dis):
+    """A fatal error of the implementation (e.g. stack overflow in First) kills the harness: the input
+    it was running is in current.txt and is a concrete failure of C27 (worse than a panic)."""
+    import os
+    if getattr(ctx, "harness_crash", None) is None:
+        return
+    cur = os.path.join(ctx.work, "run", "current.txt")
+    if not os.path.exists(cur):
+        return
+    lines = open(cur, errors="replace").read().split("\n")
+    if lines and lines[0].startswith("tplnew"):
+        ctx.report_concrete("new-fatal", {"case": lines[0], "source": lines[1] if len(lines) > 1 else "",
+                                          "harness": "c27", "detail": ctx.harness_crash[-1500:],
+                                          "how": "tpl.New killed the process (fatal error, not recoverable)"})
+
+
+def replay(ctx, obj):
+    import subprocess, os
+    from .. import replay as rp
+    if obj.get("key") == "new-fatal":
+        exe, out = ctx.build_harness("c27")
+        if exe is None:
+            print(out); return 1
+        p = subprocess.run([exe, "-replay", obj["case"], "-out", os.path.join(ctx.work, "replay")], env=common.GOENV,
+                           stdout=subprocess.PIPE, stderr=subprocess.STDOUT, text=True, errors="replace")
+        print(p.stdout[-3000:])
+        print("harness exit status:", p.returncode)
+        if p.returncode != 0:
+            return 1
+        # did not die this time (e.g. the 10 s guard fired first): evaluate it like any other case
+    return rp.generic(ctx, obj)
+
+
 def run(ctx):
     ctx.assumptions += [
         "a CHAR token without scanner error has both quotes (len >= 2); marker CHAR-LIT-SHORT-WITHOUT-SCAN-ERROR on every case otherwise",
         "strconv.Unquote / strconv.UnquoteChar do not panic; their real results are passed to the model per literal",
     ]
     common.standard(ctx, "GopModel.Props.C27", "c27", 3000, 60000, RULE,
-                    extract=("tpltoken",), driver="drv_tplfront")
+                    extract=("tpltoken",), driver="drv_tplfront", post=_post)
